@@ -289,6 +289,23 @@ pub fn big_rcvbuf(sock: &UdpSocket) {
     }
 }
 
+/// A second client completes a plain one-block download of `x_small` (must exist in the send directory) — used in the
+/// middle of somebody else's transfer. Returns false if it was not served correctly.
+pub fn foreign_small_download(srv: &Srv) -> bool {
+    let mut f = Client::new(srv.addr);
+    f.to_server(&rc::request(false, b"x_small", &[]));
+    match f.recv_wait(BACKSTOP) {
+        Some((b, _)) => match rc::decode(&b) {
+            Ok(RPacket::Data { block: 1, data }) => {
+                f.to_peer(&rc::ack(1));
+                data == b"s"
+            }
+            _ => false,
+        },
+        None => false,
+    }
+}
+
 /// Listener barrier: a probe RRQ for a missing file from a second socket; its ERROR(1) comes from the sequential
 /// listen loop, so everything sent to the listening port before it has been handled when it returns.
 pub fn barrier(srv: &Srv) -> bool {
@@ -544,6 +561,9 @@ pub fn download_on(c: &mut Client, srv: &Srv, name: &[u8], opts: &[(String, Stri
                                 c.to_peer(&rc::ack(p));
                             }
                         }
+                        if ack_mode == 3 && prev_ack.is_none() && !foreign_small_download(srv) {
+                            r.anomalies.push("the foreign client's small download in the middle of this transfer was not served".into());
+                        }
                         c.to_peer(&rc::ack(block));
                         if ack_mode == 1 && !last {
                             c.to_peer(&rc::ack(block));
@@ -754,6 +774,7 @@ pub fn upload_faulty(srv: &Srv, name: &[u8], opts: &[(String, String)], payload:
         quiesce();
         return r;
     }
+    let mut foreign_done = false;
     let mut sent_hi: u64 = 0; // highest block ever sent: a cumulative ACK up to it is valid
     'outer: while base <= nfinal {
         let hi = (base + ws - 1).min(nfinal);
@@ -809,6 +830,12 @@ pub fn upload_faulty(srv: &Srv, name: &[u8], opts: &[(String, String)], payload:
                 }
             }
             if advanced {
+                if mode == 3 && !foreign_done {
+                    foreign_done = true;
+                    if !foreign_small_download(srv) {
+                        r.anomalies.push("the foreign client's small download in the middle of this transfer was not served".into());
+                    }
+                }
                 break;
             }
             if !workers_alive() {
